@@ -1,6 +1,8 @@
 """C08 -- header collections are case-insensitive, order-preserving and round-trip; invalid names are rejected."""
 import base64
 import json
+import random
+import zlib
 
 from harness.coqfmt import B, L, N, P, X, opt
 
@@ -16,7 +18,10 @@ RULE = ('T2: operation sequences (set / append / del / pop / in / getbytes / get
 	'state machine (vm_compute); plus Element.split of the three list-element split functions, encode/decode_rfc2047, formatkey, UTF-8 encoding and '
 	'Headers.parse (result and the partial state it leaves on error) on their own. Oracle: an independent reference multimap keyed by the lower-cased '
 	'name is run next to the real object and compared after every step; text values must read back; bytes(h) must parse back to an equal dict; '
-	'names outside the RFC 7230 token alphabet must be refused on assignment and on the wire. non-trivial = distinct (kind, input)')
+	'names outside the RFC 7230 token alphabet must be refused on assignment and on the wire. Wave 4 (oracle): every registered field name in several letter cases, names and values at limit '
+	'lengths (11..65536) in six alphabets, normalisation forms / look-alikes, degenerate values; setdefault / update / set / constructor / set_element / append_element sequences (ops2); every bytes(h) is '
+	'compared with a second bytes(h), with a fresh / constructed / copied collection from the same items, read in other letter cases, and its octets re-written (names re-cased, other OWS, folded, '
+	'reordered, field by field) must parse to the same collection; blocks parsed twice / in pieces. non-trivial = distinct (kind, input)')
 EXHAUSTIVE = {'quick': False, 'thorough': False}
 TRUSTED = ['harness/tables/headers.py, harness/tables/headers_api.py (T1: HEADER_RE class, spelling / join / priority / list-element tables, split-function identity and pinned '
 	'pattern texts, RFC 2047 framing, variant probes for D15 and D32), harness/tables/base64.py',
@@ -41,6 +46,15 @@ KNOWN_NAMES = ['Host', 'Date', 'Server', 'Connection', 'Set-Cookie', 'Cookie', '
 TOK = "!#$%&'*+-.^_`|~09azAZbBcC"
 BADCH = ' \t:;,()<>@/[]?={}"\\\x00\x1f\x7f\n\r\x0b'
 UNI = ['\u017f', '\u0131', '\u212a', '\u00df', '\u00e9', '\u20ac', '\u01c5', '\u0130', '\U0001f600', '\u00ff', '\u0080']
+
+
+_REG = []
+
+
+def REGISTERED():
+	if not _REG:
+		_REG.append(set(n.lower().encode('ascii') for n in _registry()))
+	return _REG[0]
 
 
 def rcase(rng, s):
@@ -249,6 +263,209 @@ def gen_ops(rng):
 	return ops
 
 
+# ------------------------------------------------------------------ strengthening (wave 4): classes of inputs rather than single inputs
+# lengths at and around the limits that header code tends to know (RFC 2047 word of 75, 255/256, 1 KiB, 4 KiB, 8 KiB line limits, 64 KiB)
+LIMITS_SMALL = [10, 11, 12, 13, 22, 23, 33, 45, 74, 75, 76, 77, 127, 128, 255, 256, 257]
+LIMITS_BIG = [1023, 1024, 1025, 4095, 4096, 8190, 8191, 8192, 8193, 65535, 65536]
+# normalisation forms and look-alikes: text must come back code point for code point
+NORM = [
+	'\u00e9', '\u0065\u0301', '\u00c5', '\u212b', '\u0041\u030a', '\u03a9', '\u2126', '\u004b',
+	'\u212a', '\uac01', '\u1100\u1161\u11a8', '\u8c48', '\uf900', '\ufa0e', '\U0002f800', '\u4e3d',
+	'\ufb01', '\u0066\u0069', '\u1e9b\u0323', '\u1e69', '\u0073\u0323\u0307', '\u1e63\u0307', '\u0344', '\u0308\u0301',
+	'\u00a0', '\u2002', '\u2003', '\u3000', '\uff21', '\u00b5', '\u03bc', '\u017f',
+	'\u0130', '\u0131', '\U0001f600', '\U00010348', '\U0001f468\u200d\U0001f469\u200d\U0001f467', '\u0301', '\ufeff', '\u200b',
+	'\u2028', '\u2029', '\u0085', '\ufffd', '\uffff', '\U0010ffff', '\u1161', '\u11a8',
+	'\u0958', '\u0915\u093c', '\u0f73', '\u0f71\u0f72', '\u1e0d\u0307', '\u01fa', '\u0041\u030a\u0301', '\u1e9e',
+	'\u00df', '\u01c5', '\u0149', '\u2160', '\u2460', '\u33a7', '\ufdfa', '\U0001d400']
+ALPHABETS = {
+	'ascii': 'abcXYZ019-_.~!*',
+	'asciisp': 'ab c,d;e=f"g h/',
+	'latin1': 'a\u00e9\u00fc\u00df\u00ff\u00a9\u00c5 b',
+	'bmp': '\u20ac\u2192\u4f60\u0416\u03b1 \u0141x',
+	'astral': '\U0001f600\U00010348\U0002f800',
+	'norm': 'e\u0301\u212b\u2126\u212a\u1100\u1161\u11a8\uf900 \u00e9',
+}
+DEGENERATE = ['', ' ', '  ', '\t', ',', ',,', ', ,', ' , ', ';', ';;', '; ;', '=', '==', '"', '""', '"a', 'a"', '"a,b', 'a,b"', '\\', '\\"', '"\\', ':', '::', ': ', '?', '??', '?=x', 'a=', '=a', 'a,', ',a', 'a,,b', 'a;;b', 'a; ', '(', ')', '*',
+	"''", "utf-8''", "utf-8''%e2%82%ac", '%', '%%', '%2', '%zz', '%00', '\x7f', 'a\tb', 'a  b']
+
+
+def _registry():
+	"""every field name the implementation knows, read from the tree the check runs against"""
+	import httoop  # noqa: F401  (imports every header module, which fills the table)
+	from httoop.header.element import HEADER
+	names = set(dict.keys(HEADER))
+	for cls in dict.values(HEADER):
+		names.add(cls.__name__)
+	return sorted(n for n in names if isinstance(n, str))
+
+
+def spellings(name):
+	return [name, name.lower(), name.upper(), name.title(), name.swapcase(), name[:1].lower() + name[1:].upper()]
+
+
+def text_of_len(rng, n, alpha):
+	"""a text of exactly n characters over one of the alphabets, without leading / trailing blank"""
+	a = ALPHABETS[alpha]
+	if n == 0:
+		return ''
+	t = ''.join(a[(i * 7 + i // len(a)) % len(a)] for i in range(n)) if n > 2000 else ''.join(rng.choice(a) for _ in range(n))
+	solid = [ch for ch in a if not ch.isspace() and ord(ch) > 0x20]
+	t = rng.choice(solid) + t[1:]
+	if n > 1:
+		t = t[:-1] + rng.choice(solid)
+	return t
+
+
+def gen_special_text(rng):
+	"""text for a value position drawn from the classes: normalisation forms / look-alikes, degenerate, limit lengths"""
+	r = rng.random()
+	if r < 0.3:
+		return ''.join(rng.choice(NORM) for _ in range(rng.randint(1, 3)))
+	if r < 0.45:
+		return rng.choice(['', 'x', 'a b', '\u20ac']) + rng.choice(NORM) + rng.choice(['', 'y', ', z', '; q=1', '\u00e9'])
+	if r < 0.6:
+		return rng.choice(DEGENERATE)
+	if r < 0.68:
+		return rng.choice(NORM) + rng.choice(DEGENERATE) + rng.choice(NORM)
+	n = rng.choice(LIMITS_SMALL) if r < 0.95 else rng.choice(LIMITS_BIG[:6])
+	return text_of_len(rng, n, rng.choice(sorted(ALPHABETS)))
+
+
+def gen_tokname(rng, pool, reg):
+	r = rng.random()
+	if r < 0.45:
+		return rng.choice(spellings(rng.choice(reg)))
+	if r < 0.85:
+		return rng.choice(spellings(rng.choice(pool)))
+	s = ''.join(rng.choice(TOK) for _ in range(rng.choice([1, 2, 3, 11, 12, 75, 76, 255, 256])))
+	pool.append(s)
+	return s
+
+
+def gen_ops2(rng, reg):
+	"""operation sequences through the rest of the public mapping interface (setdefault, update, set, the constructor, set_element, append_element)
+	mixed with the modelled operations; every way of changing the collection, then compose again"""
+	pool = list(rng.sample(KNOWN_NAMES[:-1], rng.randint(1, 3)))
+	ops = []
+
+	def val(lk):
+		r = rng.random()
+		if r < 0.5:
+			return {'t': gen_special_text(rng)}
+		if r < 0.62:
+			t = gen_special_text(rng)
+			try:
+				return {'b': t.encode('latin-1').hex()}
+			except UnicodeEncodeError:
+				return {'b': t.encode('utf-8').hex()}
+		return gen_value(rng, lk)
+
+	def key():
+		if rng.random() < 0.93:
+			s = gen_tokname(rng, pool, reg)
+			return {'b': s.encode('ascii').hex()} if rng.random() < 0.3 else {'t': s}
+		return gen_name(rng, pool)
+
+	def pairs():
+		out = []
+		for _ in range(rng.randint(0, 4)):
+			k = key()
+			out.append([k, val(key_lower(k))])
+		return out
+	for _ in range(rng.randint(2, 12)):
+		r = rng.random()
+		k = key()
+		lk = key_lower(k)
+		if r < 0.14:
+			ops.append(['set', k, val(lk)])
+		elif r < 0.26:
+			ops.append(['append', k, val(lk)])
+		elif r < 0.36:
+			ops.append(['setdefault', k, val(lk)])
+		elif r < 0.44:
+			ops.append(['update', pairs()])
+		elif r < 0.48:
+			ops.append(['setall', pairs()])
+		elif r < 0.53:
+			ops.append(['ctor', pairs()])
+		elif r < 0.63:
+			# set_element / append_element: for a registered field the element class decides what a value is (C09 and the per-field checks); here the plain element
+			if lk is not None and lk in REGISTERED():
+				k = {'t': rng.choice(spellings(rng.choice(['X-Foo', 'Subject', 'x-custom-note', "x!#$%&'*+.^_`|~9", 'Zz', 'a1b'])))}
+			ops.append(['setel' if r < 0.58 else 'appel', k, {'t': gen_special_text(rng)}])
+		elif r < 0.67:
+			ops.append(['del', k])
+		elif r < 0.71:
+			ops.append(['pop', k])
+		elif r < 0.75:
+			ops.append(['mem', k])
+		elif r < 0.78:
+			ops.append(['getbytes', k])
+		elif r < 0.84:
+			ops.append(['get', k])
+		elif r < 0.89:
+			blk, exp = gen_block(rng, [p for p in pool if key_lower({'t': p}) is not None] or ['A'], True)
+			ops.append(['parse', {'b': blk.hex()}, [[a.hex(), b.hex()] for a, b in exp]])
+		else:
+			ops.append(['compose'])
+	ops.append(['compose'])
+	return ops
+
+
+def registry_ops(rng, name):
+	"""lookup, membership, assignment, deletion and the wire for one registered name in several letter cases (goes through the Coq model as well)"""
+	sp = spellings(name)
+	v1, v2 = rng.choice([b'v1', b'a=1', b'"q"', b'x/y']), rng.choice([b'w', b'b=2', b'z'])
+	blk = b'%s: p\r\n%s: q\r\nX-Other: 1\r\n%s: r' % (sp[rng.randrange(6)].encode(), sp[rng.randrange(6)].encode(), sp[rng.randrange(6)].encode())
+	a = [['set', {'t': sp[2]}, {'b': v1.hex()}], ['mem', {'t': sp[1]}], ['get', {'b': sp[4].encode().hex()}], ['append', {'t': sp[3]}, {'b': v2.hex()}], ['getbytes', {'t': sp[5]}],
+		['compose'], ['del', {'t': sp[1]}], ['mem', {'t': sp[0]}], ['del', {'t': sp[2]}],
+		['parse', {'b': blk.hex()}, [[x.hex(), y.hex()] for x, y in [(sp[0].encode(), b'p'), (sp[0].encode(), b'q'), (b'X-Other', b'1'), (sp[0].encode(), b'r')]]],
+		['getbytes', {'t': sp[4]}], ['compose'], ['pop', {'b': sp[5].encode().hex()}], ['mem', {'t': sp[3]}], ['compose']]
+	return {'k': 'ops', 'ops': a}
+
+
+def gen_wave4(rng, tier):
+	big = tier == 'thorough'
+	reg = _registry()
+	cases = []
+	for name in reg:
+		cases.append(registry_ops(rng, name))
+		sp = spellings(name)
+		cases.append({'k': 'key', 'key': {'t': sp[rng.randrange(1, 6)]}})
+		cases.append({'k': 'key', 'key': {'b': sp[rng.randrange(1, 6)].encode().hex()}})
+	# names at the limit lengths (the Coq model as far as it is affordable)
+	for n in LIMITS_SMALL + [1023, 1024]:
+		s = ''.join(rng.choice(TOK) for _ in range(n))
+		cases.append({'k': 'key', 'key': {'t': s}})
+		cases.append({'k': 'key', 'key': {'b': (s[:n // 2] + rng.choice(BADCH + '\u00e9') + s[n // 2 + 1:]).encode('utf-8').hex()}})
+	for n in LIMITS_SMALL + LIMITS_BIG:
+		s = ''.join(TOK[(i * 5) % len(TOK)] for i in range(n))
+		cases.append({'k': 'ops2', 'every': False, 'ops': [['set', {'t': s.upper()}, {'t': 'v'}], ['mem', {'b': s.lower().encode().hex()}], ['get', {'t': s.swapcase()}], ['compose'],
+			['append', {'t': s.lower()}, {'b': b'w'.hex()}], ['compose'], ['del', {'t': s.title()}], ['mem', {'t': s}]]})
+	# values at the limit lengths in every alphabet: as text (read back, wire) and inside a collection (round trip), set and appended
+	for n in LIMITS_SMALL + LIMITS_BIG:
+		for alpha in sorted(ALPHABETS):
+			if n > 9000 and alpha not in ('ascii', 'bmp', 'astral') and not big:
+				continue
+			t = text_of_len(rng, n, alpha)
+			cases.append({'k': 'rt_value', 't': t, 'name': rng.choice(spellings(rng.choice(reg + ['X-Value', 'Subject', "x!#$%&'*+.^_`|~9"])))})
+			if n <= 8193:
+				nm = rng.choice(['X-Long', 'Subject', 'ETag', 'cookie', 'user-agent'])
+				cases.append({'k': 'ops2', 'every': False, 'ops': [['set', {'t': 'Host'}, {'t': 'example.com'}], [rng.choice(['set', 'setdefault', 'append', 'setel'] if nm in ('X-Long', 'Subject') else ['set', 'setdefault', 'append']), {'t': nm}, {'t': t}], ['get', {'t': nm.swapcase()}], ['compose'],
+					['append', {'t': nm.upper()}, {'t': t[:n // 2 + 1].rstrip() or 'x'}], ['compose'], ['update', [[{'t': nm.lower()}, {'t': t}]]], ['compose']]})
+			if n <= 300:
+				cases.append({'k': 'encode', 't': t})
+	for t in NORM + DEGENERATE:
+		cases.append({'k': 'rt_value', 't': t, 'name': rng.choice(spellings(rng.choice(reg)))})
+		cases.append({'k': 'rt_value', 't': 'a ' + t + ' \u20ac' + t + 'z'})
+		cases.append({'k': 'encode', 't': t})
+	for _ in range(3000 if big else 250):
+		cases.append({'k': 'rt_value', 't': gen_special_text(rng), 'name': rng.choice(spellings(rng.choice(reg)))})
+	for _ in range(9000 if big else 650):
+		cases.append({'k': 'ops2', 'every': rng.random() < 0.5, 'ops': gen_ops2(rng, reg)})
+	return cases
+
+
 def gen_cases(rng, tier):
 	big = tier == 'thorough'
 	cases = []
@@ -286,6 +503,7 @@ def gen_cases(rng, tier):
 	for _ in range(12000 if big else 700):
 		blk, exp = gen_block(rng, [rng.choice(KNOWN_NAMES) for _ in range(3)], rng.random() < 0.5)
 		cases.append({'k': 'parse', 'd': blk.hex()})
+	cases.extend(gen_wave4(rng, tier))
 	return cases
 
 
@@ -335,15 +553,130 @@ def _record_title(k, tt):
 		tt[ub.hex()] = u.title().encode('utf-8', 'surrogatepass').hex()
 
 
+def _fresh(h):
+	"""a new collection built from the same final data through the public interface"""
+	Headers = _impl()[0]
+	f = Headers()
+	for kk, vv in dict.items(h):
+		f[kk] = vv
+	return f
+
+
+def _groups(block):
+	out = []
+	for line in block.split(b'\r\n'):
+		if out and line[:1] in (b' ', b'\t'):
+			out[-1].append(line)
+		else:
+			out.append([line])
+	return out
+
+
+def reencode(block, rng):
+	"""the same header block as another sender would write it: names in another letter case, other optional whitespace around the value, one value folded
+	at an inner blank (CRLF SP in front of the blank), fields in another order (fields of the same name keep their order)"""
+	gs = []
+	for g in _groups(block):
+		name, colon, rest = g[0].partition(b':')
+		if not colon:
+			return None
+		name = bytes(rng.choice([ch, ch ^ 0x20]) if 0x41 <= (ch & 0xdf) <= 0x5a else ch for ch in name)
+		rest = rng.choice([b'', b' ', b'  ', b'\t', b' \t']) + rest.lstrip(b' \t')
+		if len(g) == 1 and rng.random() < 0.5:
+			v = rest.strip(b' \t')
+			at = [i for i in range(1, len(v) - 1) if v[i:i + 1] == b' ' and v[i - 1:i] not in (b' ', b'\t', b'\r', b'\n')]
+			if at:
+				i = rng.choice(at)
+				g = [g[0], b' ' + v[i:]]
+				rest = rest[:len(rest) - len(rest.lstrip(b' \t'))] + v[:i]
+		g = [name + b':' + rest] + g[1:]
+		g[-1] = g[-1] + rng.choice([b'', b'', b' ', b'\t', b'  '])
+		gs.append((name.lower(), g))
+	order = list(range(len(gs)))
+	rng.shuffle(order)
+	slots = {}
+	for pos, idx in enumerate(order):
+		slots.setdefault(gs[idx][0], []).append(pos)
+	out = [None] * len(gs)
+	seen = {}
+	for nm, g in gs:
+		n = seen.get(nm, 0)
+		seen[nm] = n + 1
+		out[sorted(slots[nm])[n]] = g
+	return b'\r\n'.join(b'\r\n'.join(g) for g in out)
+
+
+def _parse_items(block):
+	Headers, InvalidHeader = _impl()[0], _impl()[3]
+	back = Headers()
+	try:
+		back.parse(block)
+	except InvalidHeader:
+		return 'invalid', back
+	return sorted(_items(back)), back
+
+
+def _compose_extras(h, out, rt, back):
+	"""used twice / fresh object / other letter cases / the same octets written differently (oracle only)"""
+	Headers = _impl()[0]
+	x = {}
+	before = _items(h)
+	x['again'] = bytes(h) == out
+	x['compose_m'] = h.compose() == out
+	x['unchanged'] = _items(h) == before
+	try:
+		x['fresh'] = bytes(_fresh(h)) == out
+		x['ctor'] = bytes(Headers(dict(dict.items(h)))) == out
+		x['copy'] = bytes(Headers(h)) == out
+	except Exception as exc:
+		x['fresh_err'] = _exc(exc)
+	def safe(f, *a):
+		try:
+			return f(*a)
+		except Exception as exc:
+			return ['raised', _exc(exc)]
+	ci = []
+	for obj, what in ((h, 'collection'), (back if rt == sorted(before) else None, 'parsed-back collection')):
+		if obj is None:
+			continue
+		for kk, vv in dict.items(h):
+			for sp in spellings(kk) + [kk.lower().encode('ascii', 'replace')]:
+				if safe(obj.__contains__, sp) is not True or safe(obj.getbytes, sp) != vv or safe(obj.get, sp) != safe(h.get, kk) or safe(obj.__getitem__, sp) != safe(h.get, kk):
+					ci.append([what, sp if isinstance(sp, str) else sp.decode('latin-1')])
+	x['ci'] = ci[:3]
+	if isinstance(rt, list):
+		x['eq'] = bool(back == h and h == back and not (back != h))
+		rng = random.Random(zlib.crc32(out))
+		for _ in range(2):
+			alt = reencode(out[:-4], rng)
+			if alt is None:
+				break
+			art = _parse_items(alt)[0]
+			if art != rt:
+				x['reenc'] = [alt.hex(), art]
+				break
+		# the same block received in pieces (one parse() call per field) on one object
+		frag = Headers()
+		try:
+			for g in _groups(out[:-4]):
+				frag.parse(b'\r\n'.join(g))
+			if sorted(_items(frag)) != rt:
+				x['frag'] = sorted(_items(frag))
+		except Exception as exc:
+			x['frag'] = _exc(exc)
+	return x
+
+
 def observe(c):
 	Headers, HeaderElement, HEADER, InvalidHeader = _impl()
 	k = c['k']
-	if k == 'ops':
+	if k in ('ops', 'ops2'):
 		h = Headers()
 		res, states, tt, td = [], [], {}, {}
-		for op in c['ops']:
+		freshbad = None
+		for step, op in enumerate(c['ops']):
 			name = op[0]
-			if len(op) > 1 and name != 'parse':
+			if len(op) > 1 and name != 'parse' and isinstance(op[1], dict):
 				_record_title(op[1], tt)
 			for v in dict.values(h):
 				if b'=?' in v and v.hex() not in td:
@@ -391,8 +724,27 @@ def observe(c):
 							canon[kk] = E.join(E.split(vv)) == vv
 					r.append(rt)
 					r.append(canon)
+					r.append(_compose_extras(h, out, rt, back))
 				elif name == 'clear':
 					h.clear()
+					r = 'unit'
+				elif name == 'setdefault':
+					x = h.setdefault(key_obj(op[1]), _val(op[2]))
+					r = ['opt', None if x is None else bytes(x).hex()]
+				elif name == 'update':
+					h.update(dict((key_obj(a), _val(b)) for a, b in op[1]))
+					r = 'unit'
+				elif name == 'setall':
+					h.set(dict((key_obj(a), _val(b)) for a, b in op[1]))
+					r = 'unit'
+				elif name == 'ctor':
+					h = Headers(dict((key_obj(a), _val(b)) for a, b in op[1]))
+					r = 'unit'
+				elif name == 'setel':
+					h.set_element(key_obj(op[1]), _val(op[2]))
+					r = 'unit'
+				elif name == 'appel':
+					h.append_element(key_obj(op[1]), _val(op[2]))
 					r = 'unit'
 				else:
 					raise ValueError(name)
@@ -402,7 +754,13 @@ def observe(c):
 				r = _exc(exc)
 			res.append(r)
 			states.append(_items(h))
-		return {'res': res, 'states': states, 'tt': tt, 'td': td}
+			if c.get('every') and freshbad is None:
+				try:
+					if bytes(h) != bytes(_fresh(h)):
+						freshbad = step
+				except Exception as exc:
+					freshbad = [step, _exc(exc)]
+		return {'res': res, 'states': states, 'tt': tt, 'td': td, 'freshbad': freshbad}
 	if k == 'key':
 		tt = {}
 		_record_title(c['key'], tt)
@@ -443,23 +801,60 @@ def observe(c):
 			ok = False
 		except Exception as exc:
 			return {'err': _exc(exc)}
-		return {'ok': ok, 'final': _items(h)}
+		o = {'ok': ok, 'final': _items(h)}
+		if ok:
+			blk = bytes.fromhex(c['d'])
+			want = sorted(_items(h))
+			frag = Headers()
+			try:
+				for g in _groups(blk):
+					frag.parse(b'\r\n'.join(g))
+				o['frag'] = None if sorted(_items(frag)) == want else sorted(_items(frag))
+			except Exception as exc:
+				o['frag'] = _exc(exc)
+			rng = random.Random(zlib.crc32(blk))
+			alt = reencode(blk, rng)
+			if alt is not None:
+				art = _parse_items(alt)[0]
+				o['reenc'] = None if art == want else [alt.hex(), art]
+			twice = Headers()
+			twice.parse(blk)
+			twice.parse(blk)
+			o['twice'] = _items(twice)
+		return o
 	if k == 'rt_value':
 		# the property on a single value: assign text, read it back directly and after a trip over the wire
 		h = Headers()
+		nm = c.get('name', 'X-Value')
 		try:
-			h['X-Value'] = c['t']
+			h[nm] = c['t']
 		except UnicodeEncodeError:
 			return {'skip': 'unencodable'}
 		try:
-			direct = h['x-value']
-			raw = h.getbytes('X-VALUE')
+			direct = h[nm.lower()]
+			raw = h.getbytes(nm.upper())
+			if nm.lower().encode('ascii', 'replace') in LIST_FIELDS:
+				E = HEADER.get(nm, HeaderElement)
+				if E.join(E.split(raw)) != raw:
+					# round trip hypothesis: list-element fields in joined-canonical form (otherwise only the direct read-back is checked)
+					return {'raw': raw.hex(), 'direct': direct, 'wire': direct, 'notcanon': True}
 			back = Headers()
 			back.parse(bytes(h)[:-4])
-			wire = back.get('x-Value')
-			return {'raw': raw.hex(), 'direct': direct, 'wire': wire}
+			wire = back.get(nm.swapcase())
+			o = {'raw': raw.hex(), 'direct': direct, 'wire': wire}
+			if 'name' in c:
+				# used again: a second lookup, a second serialisation, and the same text through the other ways of assignment
+				o['direct2'] = h.get(nm)
+				o['eq'] = [bytes(h) == bytes(h), back == h, dict(back) == dict(h)]
+				h2 = Headers({nm: c['t']})
+				h3 = Headers()
+				h3.setdefault(nm.upper(), c['t'])
+				h4 = Headers()
+				h4.append(nm.lower(), c['t'])
+				o['ways'] = [h2.getbytes(nm).hex(), h3.getbytes(nm).hex(), h4.getbytes(nm).hex()]
+			return o
 		except Exception as exc:
-			return {'err': _exc(exc), 'raw': h.getbytes('X-Value').hex()}
+			return {'err': _exc(exc), 'raw': h.getbytes(nm).hex()}
 	raise ValueError(k)
 
 
@@ -534,7 +929,7 @@ def _str_key_unencodable(k):
 
 def coq_case(c, o):
 	k = c['k']
-	if k == 'rt_value' or 'skip' in o:
+	if k in ('rt_value', 'ops2') or 'skip' in o:
 		return None
 	if _escaped(o):
 		return FORCE_BAD
@@ -615,8 +1010,18 @@ def oracle(c, o):
 			return 'text value: reading back raised %s (stored as %s)' % (o['err'], o.get('raw'))
 		if o['direct'] != t:
 			return 'text value does not read back (the str assigned differs from the str returned by lookup): %r stored as %s read as %r' % (t, o['raw'], o['direct'])
-		if _wf_value(bytes.fromhex(o['raw'])) and o['wire'] != t:
-			return 'text value does not survive the wire (compose, parse, lookup differs from the str assigned): %r sent as %s read as %r' % (t, o['raw'], o['wire'])
+		# well-formedness is a matter of the text assigned (Latin-1 text travels raw: no CR/LF, no blanks at the edges; any other text travels encoded),
+		# not of the octets the library chose to store for it
+		exp_raw = _fmt({'t': t})[0]
+		if (_wf_value(bytes.fromhex(o['raw'])) or (exp_raw is not None and _wf_value(exp_raw))) and o['wire'] != t:
+			return 'text value does not survive the wire (compose, parse, lookup differs from the str assigned): %r sent as %s read as %r' % (t, o['raw'][:200], o['wire'])
+		if 'name' in c and not o.get('notcanon'):
+			if o['direct2'] != t:
+				return 'text value does not read back (the str assigned differs from the str returned by lookup) on the second lookup: %r read as %r' % (t, o['direct2'])
+			if o['ways'] != [o['raw']] * 3:
+				return 'text value: the constructor, setdefault and append store other octets than assignment for the same text %r: %r, assignment %s' % (t, o['ways'], o['raw'][:200])
+			if exp_raw is not None and _wf_value(exp_raw) and o['eq'] != [True, True, True]:
+				return 'text value: bytes(headers) does not parse back to an equal collection [stable, ==, dict ==] = %r for %r under the name %r' % (o['eq'], t, c['name'])
 		return None
 	if k == 'key':
 		if _str_key_unencodable(c['key']):
@@ -629,8 +1034,24 @@ def oracle(c, o):
 		if lk is not None and bytes.fromhex(o['out']).lower() != lk:
 			return 'formatkey changes a field name beyond its letter case: %s -> %r' % (json.dumps(c['key']), bytes.fromhex(o['out']))
 		return None
-	if k != 'ops':
+	if k == 'parse':
+		if not o.get('ok'):
+			return None
+		if o.get('frag') is not None:
+			return 'header block received field by field (one parse() per field on one object) gives another collection than received at once: %s -> %r' % (c['d'], o['frag'])
+		if o.get('reenc') is not None:
+			return 'the same header block with names in another letter case / other optional whitespace / folded / reordered parses to another collection: %s -> %r' % (o['reenc'][0], o['reenc'][1])
+		want = []
+		for a, b in o['final']:
+			nm, v = bytes.fromhex(a), bytes.fromhex(b)
+			want.append([a, (v + SEP.get(nm.lower(), b', ') + v).hex()])
+		if o['twice'] != want:
+			return 'header block parsed twice into one collection: repeated fields are not combined in arrival order with the separator of the field: %s -> %r' % (c['d'], o['twice'])
 		return None
+	if k not in ('ops', 'ops2'):
+		return None
+	if o.get('freshbad') is not None:
+		return 'step %r: the collection serialises differently from a fresh collection built from the same items (state kept between uses)' % (o['freshbad'],)
 	ref, txt = {}, {}
 	for i, (op, r) in enumerate(zip(c['ops'], o['res'])):
 		name = op[0]
@@ -708,6 +1129,63 @@ def oracle(c, o):
 				elif b'=?' not in ref[lk]:
 					if r != ['opt', ref[lk].decode('latin-1').encode('utf-8').hex()]:
 						return 'step %d: get(%s) answered %r for raw %r' % (i, json.dumps(op[1]), r, ref[lk])
+		elif name in ('setdefault', 'setel', 'appel'):
+			lk = key_lower(op[1])
+			raw, t = _fmt(op[2])
+			if _str_key_unencodable(op[1]):
+				resync = True
+			elif lk is None:
+				if r not in ('invalid', 'unicode'):
+					return 'invalid field name accepted on assignment instead of raising InvalidHeader (%s): key %s -> stored names %r' % (name, json.dumps(op[1]), sorted(state))
+			elif name != 'setdefault' and (lk in REGISTERED() or (name == 'appel' and lk in ref and b'=?' in ref[lk])):
+				resync = True   # the element class of a registered field may refuse or rewrite the value: not predicted here (C09)
+			elif name == 'setdefault' and lk in ref:
+				if r != ['opt', ref[lk].hex()]:
+					return 'step %d: setdefault of a present name (any case) answered %r, reference %r' % (i, r, ref[lk])
+			elif raw is None:
+				if r != 'unicode':
+					return 'step %d: unencodable text accepted: %r' % (i, r)
+			elif name == 'appel' and ref.get(lk):
+				if r != 'unit':
+					return 'step %d: valid append_element refused: %r' % (i, r)
+				ref[lk] = ref[lk] + SEP.get(lk, b', ') + raw
+				txt[lk] = None
+			else:
+				if r != (['opt', raw.hex()] if name == 'setdefault' else 'unit'):
+					return 'step %d: valid %s refused or answered wrongly: %s -> %r' % (i, name, json.dumps(op[1]), r)
+				ref[lk] = raw
+				txt[lk] = t
+		elif name in ('update', 'setall', 'ctor'):
+			E = {}
+			for a, b in op[1]:
+				E[key_obj(a)] = (a, b)
+			tmp, ttmp = ({}, {}) if name in ('setall', 'ctor') else (ref, txt)
+			want = 'unit'
+			for a, b in E.values():
+				lk = key_lower(a)
+				raw, t = _fmt(b)
+				if _str_key_unencodable(a):
+					want = None
+					break
+				if lk is None:
+					want = 'invalid' if raw is not None else 'invalid-or-unicode'   # which of the two is looked at first differs between update and the constructor
+					break
+				if raw is None:
+					want = 'unicode'
+					break
+				tmp[lk] = raw
+				ttmp[lk] = t
+			if want is None:
+				resync = True
+			elif want == 'invalid-or-unicode' and r in ('invalid', 'unicode'):
+				if name != 'ctor':
+					ref, txt = tmp, ttmp
+			elif r != want:
+				if want in ('invalid', 'invalid-or-unicode'):
+					return 'invalid field name accepted on assignment instead of raising InvalidHeader (%s): %s -> %r, stored names %r' % (name, json.dumps(op[1])[:300], r, sorted(state))
+				return 'step %d: %s answered %r, expected %r' % (i, name, r, want)
+			elif name != 'ctor' or want == 'unit':
+				ref, txt = tmp, ttmp
 		elif name == 'parse':
 			exp = op[2]
 			if exp is None:
@@ -738,10 +1216,26 @@ def oracle(c, o):
 			if r[0] != 'bytes':
 				return 'step %d: bytes(headers) raised %r' % (i, r)
 			rt, canon = r[2], r[3]
+			x = r[4] if len(r) > 4 else {}
 			if ref and all(_wf_value(v) for v in ref.values()) and all(canon.values()) and not any(b':' in a for a in state):
 				want = sorted([a.hex(), b.hex()] for a, b in state.items())
 				if rt != want:
-					return 'step %d: bytes(headers) does not parse back to an equal collection: %s -> %r' % (i, r[1], rt)
+					return 'step %d: bytes(headers) does not parse back to an equal collection: %s -> %r' % (i, r[1][:400], rt if len(repr(rt)) < 600 else repr(rt)[:600])
+				if x.get('eq') is False:
+					return 'step %d: bytes(headers) parses back to a collection that does not compare equal (==) to the original: %s' % (i, r[1][:400])
+			for flag, what in (('again', 'serialised a second time without any change in between, the collection gives other octets'), ('compose_m', 'compose() and bytes() differ'),
+					('unchanged', 'serialising changed the stored items'), ('fresh', 'a fresh collection built from the same items serialises differently (state kept between uses)'),
+					('ctor', 'a collection constructed from the same items serialises differently'), ('copy', 'a copy of the collection serialises differently')):
+				if x.get(flag) is False:
+					return 'step %d: %s: %s' % (i, what, r[1][:400])
+			if x.get('fresh_err'):
+				return 'step %d: building a fresh collection from the stored items raised %s: %r' % (i, x['fresh_err'], sorted(state))
+			if x.get('ci'):
+				return 'step %d: lookup / membership in another letter case answers differently from the stored spelling: %r' % (i, x['ci'])
+			if x.get('reenc'):
+				return 'step %d: the serialised block written with names in another letter case / other optional whitespace / folded / reordered parses to another collection: %s -> %r' % (i, x['reenc'][0][:600], x['reenc'][1] if len(repr(x['reenc'][1])) < 600 else repr(x['reenc'][1])[:600])
+			if 'frag' in x:
+				return 'step %d: the serialised block received field by field (one parse() per field on one object) gives another collection than received at once: %s -> %r' % (i, r[1][:400], x['frag'])
 		elif name == 'clear':
 			ref, txt = {}, {}
 		if resync:
@@ -755,7 +1249,9 @@ def oracle(c, o):
 def classify(c, o, fail):
 	if fail.startswith('text value does not read back') or fail.startswith('text value does not survive'):
 		# D16: a Latin-1 text that itself looks like an encoded word is decoded on lookup
-		texts = [c['t']] if c['k'] == 'rt_value' else [op[2]['t'] for op in c['ops'] if op[0] in ('set', 'append') and 't' in op[2]]
+		texts = [c['t']] if c['k'] == 'rt_value' else [op[2]['t'] for op in c['ops'] if op[0] in ('set', 'append', 'setdefault', 'setel', 'appel') and 't' in op[2]]
+		if c['k'] == 'ops2':
+			texts += [b['t'] for op in c['ops'] if op[0] in ('update', 'setall', 'ctor') for a, b in op[1] if 't' in b]
 		for t in texts:
 			try:
 				raw = t.encode('latin-1')
